@@ -2,8 +2,10 @@
 """Prints the prompt given to an independent mutation sub-agent for one property (nothing from /verif except the property text)."""
 import json,sys
 pid=sys.argv[1]
+wave=sys.argv[2] if len(sys.argv)>2 else ''
 p=[json.loads(l) for l in open('/verif/properties.jsonl') if json.loads(l)['id']==pid][0]
-wt=f"/tmp/wt/{pid}"
+wt=f"/tmp/wt/{pid}{wave}"
+WAVE2 = ("" if not wave else "This is a LATER ROUND: earlier rounds already produced the obvious single-statement slips at the property's main mechanism (a moved statement, an off-by-one in the guard named in the anchors, a dropped wake). Produce something different: prefer changes in helper / callee functions the mechanism relies on, in a sibling implementation (another channel / container / executor kind than the first one listed), in configuration-dependent paths, in memory-ordering or visibility assumptions, or two cooperating edits that each look fine alone.\n\n")
 print(f"""You are helping to test a verification tool by playing the adversary. You have your own scratch git worktree of a Rust library
 (zertyz/reactive-mutiny: async reactive event library with Uni/Multi channels over custom lock-free queues, pool allocators, OgreArc refcounting,
 an mmap log channel and stream executors) at {wt}. Work ONLY inside {wt} and {wt}-out. Never read or write /repo or /verif.
@@ -32,7 +34,7 @@ YOUR TASK: produce TWO different, independent, realistic changes ("seeded defect
       needed, give instead a `demo.patch` that only ADDS a new `#[cfg(test)] mod seed_demo {{ ... }}` to a src file, run with
       `cargo test --offline --lib seed_demo`.
 
-Read the relevant code first (start from the anchors). Verify everything yourself: demo passes on the untouched tree; with the change applied
+{WAVE2}Read the relevant code first (start from the anchors). Verify everything yourself: demo passes on the untouched tree; with the change applied
 the whole existing suite still passes and the demo fails. Iterate until that is true. If a candidate turns out to be caught by the existing
 tests, pick another one.
 
